@@ -63,8 +63,23 @@ impl Discrete for Poisson {
         if k < 0 {
             0.
         } else {
-            self.lambda.powi(k as i32) * (-self.lambda).exp() / gamma(k as f64 + 1.)
+            // lambda^k and k! overflow long before the mass itself is negligible: use logarithms
+            (k as f64 * self.lambda.ln() - self.lambda - ln_factorial(k as u64)).exp()
         }
+    }
+}
+
+/// ln(k!): exact summation for small k, Stirling's series (error below 1e-12) from k = 20 on.
+fn ln_factorial(k: u64) -> f64 {
+    if k < 20 {
+        (2..=k).map(|i| (i as f64).ln()).sum()
+    } else {
+        let x = k as f64;
+        x * x.ln() - x
+            + 0.5 * (2. * std::f64::consts::PI * x).ln()
+            + 1. / (12. * x)
+            - 1. / (360. * x.powi(3))
+            + 1. / (1260. * x.powi(5))
     }
 }
 
